@@ -620,10 +620,10 @@ Qed.
 Lemma resolve_matches_sizes : forall ms rs b,
   (forall m, In m ms -> match_typed defs m = true) ->
   resolve_matches defs pv ms = EOk rs -> In b (flat_map (fun r => match r with MResolved b => [b] | _ => [] end) rs) ->
-  exists m s, In m ms /\ (match_static_size defs m = Some s -> size_of b = s).
+  exists m, In m ms /\ (forall s, match_static_size defs m = Some s -> size_of b = s).
 Proof.
   unfold resolve_matches. induction ms as [|m ms IH]; intros rs b Ht H Hin.
-  - change (EOk (@nil mres) = EOk rs) in H. injection H as <-. destruct Hin.
+  - change (EOk (@nil mres) = EOk rs) in H. inversion H; subst. destruct Hin.
   - cbn beta iota in H. destruct (resolve_match defs pv m) as [v|] eqn:E; [|discriminate].
     assert (Ht' : forall m', In m' ms -> match_typed defs m' = true) by (intros; apply Ht; now right).
     assert (Rec : forall l, (fix go (ms : list imatch) : eres (list mres) :=
@@ -634,8 +634,8 @@ Proof.
           | VInt b => match bsz b with Some _ => match go r with EOk l => EOk (MResolved b :: l) | EErr => EErr end | None => EErr end
           | _ => EErr end end end) ms = EOk l ->
         In b (flat_map (fun r => match r with MResolved b => [b] | _ => [] end) l) ->
-        exists m0 s, In m0 (m :: ms) /\ (match_static_size defs m0 = Some s -> size_of b = s)).
-    { intros l Hl Hb. destruct (IH l b Ht' Hl Hb) as [m0 [s [Hm Hs]]]. exists m0, s. split; [now right|exact Hs]. }
+        exists m0, In m0 (m :: ms) /\ (forall s, match_static_size defs m0 = Some s -> size_of b = s)).
+    { intros l Hl Hb. destruct (IH l b Ht' Hl Hb) as [m0 [Hm Hs]]. exists m0. split; [now right|exact Hs]. }
     destruct (coallesce v) as [| | |bb| | |] eqn:Cv; try discriminate.
     + match type of H with match ?x with _ => _ end = _ => destruct x as [l|] eqn:G; [|discriminate] end.
       injection H as <-. cbn [flat_map app] in Hin. exact (Rec l eq_refl Hin).
@@ -644,11 +644,9 @@ Proof.
     + destruct (bsz bb) as [nb|] eqn:Eb; [|discriminate].
       match type of H with match ?x with _ => _ end = _ => destruct x as [l|] eqn:G; [|discriminate] end.
       injection H as <-. cbn [flat_map app] in Hin. destruct Hin as [<-|Hin]; [|exact (Rec l eq_refl Hin)].
-      destruct (match_static_size defs m) as [s|] eqn:Sm.
-      * exists m, s. split; [now left|]. intros _.
-        pose proof (match_static_size_sound m v s (Ht m (or_introl eq_refl)) Sm E) as Hsz.
-        unfold size_of. rewrite Eb. apply (Hsz bb nb); [|exact Eb].
-        destruct v; cbn in Cv; try discriminate; cbn; congruence.
-      * exists m, 0. split; [now left|discriminate].
+      exists m. split; [now left|]. intros s Sm.
+      pose proof (match_static_size_sound m v s (Ht m (or_introl eq_refl)) Sm E) as Hsz.
+      unfold size_of. rewrite Eb. apply (Hsz bb nb); [|exact Eb].
+      destruct v; cbn in Cv; try discriminate; cbn; congruence.
 Qed.
 End MatchSize.
